@@ -497,6 +497,23 @@ fn mmapvec_recover(scen: &str, desc: &str, path: &Path) -> Outcome<VecState> {
     o
 }
 
+/// Continued use of a reopened image: fill the vector up to the capacity it reports (no growth
+/// is needed for that), sync, reopen.  Ok((pushed, final content)); Err = some call reported an error.
+fn mmapvec_continue(path: &Path, limit: usize) -> Result<(Vec<u64>, VecState), String> {
+    let mut v = MmapVec::<u64>::open(path, MmapVecConfig::default()).map_err(|e| e.to_string())?;
+    let room = v.capacity().saturating_sub(v.len()).min(limit);
+    let mut pushed = vec![];
+    for i in 0..room {
+        let x = uval(0x7000_0000 + i as u64);
+        v.push(x).map_err(|e| e.to_string())?;
+        pushed.push(x);
+    }
+    v.sync().map_err(|e| e.to_string())?;
+    drop(v);
+    let w = MmapVec::<u64>::open(path, MmapVecConfig::default()).map_err(|e| e.to_string())?;
+    Ok((pushed, w.as_slice().to_vec()))
+}
+
 struct Snap<S> {
     bytes: Vec<u8>,
     /// logical state at this durable point (None: no file / nothing there yet)
@@ -588,7 +605,7 @@ impl Scenario for MmapVecSc {
                     Ok(())
                 }
                 4 => {
-                    let n = if self.large { 8183 + (o[1] as usize) % (cap0 - 8183 + 1) } else if o[2] % 4 == 0 { 60 + (o[1] % 90) as usize } else { 1 + (o[1] % 5) as usize };
+                    let n = if self.large { if o[2] % 2 == 0 { 8183 + (o[1] as usize) % (cap0 - 8183 + 1) } else { 1 + (o[1] as usize) % cap0 } } else if o[2] % 4 == 0 { 60 + (o[1] % 90) as usize } else { 1 + (o[1] % 5) as usize };
                     let xs = fresh(n);
                     what = format!("extend {} values", n);
                     for x in &xs {
@@ -744,7 +761,30 @@ impl Scenario for MmapVecSc {
                     return;
                 }
                 let o = mmapvec_recover(&scen, &format!("{} {}", fam.name(), desc), &img);
+                let accepted: Option<VecState> = match &o {
+                    Outcome::Ok(s) if states.iter().any(|(_, st)| **st == *s) => Some(s.clone()),
+                    _ => None,
+                };
                 judge(cx, &mut v, &mut tl, "MmapVec", fam.name(), desc, o, &states, &show_vec);
+                // an image that was accepted is then used: what the header vouches for (its
+                // capacity) must really be there
+                if let Some(s0) = accepted {
+                    let m = fence::mark();
+                    let o2 = recover(&scen, &format!("{} {} + continued use", fam.name(), desc), || mmapvec_continue(&img, 20_000));
+                    fence::release_since(m);
+                    cx.probe("accepted_images_used_further");
+                    match o2 {
+                        Outcome::Ok((pushed, fin)) => {
+                            let mut want = s0.clone();
+                            want.extend_from_slice(&pushed);
+                            if fin != want {
+                                v.add(PRIO_IMAGE, "continued_use_mismatch", &format!("MmapVec.reopen+use/{}", fam.name()), format!("image [{}] reopened as {}; after {} pushes (within the reported capacity) and a sync it reopens as {}", desc, show_vec(&s0), pushed.len(), show_vec(&fin)));
+                            }
+                        }
+                        Outcome::Refused => cx.probe("continued_use_reported_error"),
+                        Outcome::Panic(loc, msg) => v.add(PRIO_PANIC, "panic", &loc, format!("MmapVec image [{}] continued use: {}", desc, msg)),
+                    }
+                }
             });
             tally_event(cx, fam.name(), &tl);
             cx.nontrivial = tl.images > 0;
